@@ -40,6 +40,8 @@ def units(tier):
     add(["S1", "R2", "R2"], 0)         # two blocked receivers woken by the last sender close
     add(["s2", "L"], "sym")
     # a clone closed by another task while its owner is parked in send()/receive()
+    add(["S2", "L", "L"], 0, cancel=1, behind_shield=True)   # the cancelled scope lies behind a shield: the receiver stays a live waiter
+    add(["S1", "S1", "L"], 1, cancel=2, behind_shield=True)
     add(["S1", "R1"], 0, close=0)
     add(["S2", "L"], "sym", close=0)
     add(["S1", "S1", "L"], 0, close=1)
